@@ -1,0 +1,7 @@
+//go:build verif
+
+package storage
+
+// VerifCloseDB closes the underlying database handle (the library never does);
+// used by the verification harness to simulate a process restart on a file database.
+func (s *Storage) VerifCloseDB() error { return s.db.Close() }
